@@ -208,6 +208,61 @@ def _solver_job(args):
     return part.dump()
 
 
+TR_PRE = [("add", "x<u5"), ("add", "x==5"), ("add", "x!=0"), ("eval", "x+y", 9, "none"), ("max", "x+y", "u", "none"), ("max", "x", "u", "none")]
+TR_POST_ADD = [("add", "x<u2"), ("add", "x==3"), ("add", "y==2")]
+TR_POST_Q = [("max", "x+y", "u", "none"), ("eval", "x+y", 9, "none"), ("max", "x", "u", "none"), ("sat", "none")]
+
+
+def _transparency_job(args):
+    """pickling must be invisible: pre ; pickle ; post answers exactly like pre ; post"""
+    cls, cfg, pres = args
+    import threading
+
+    part = Part()
+
+    def body():
+        uni = H.universe("bv3")
+        posts = [(q,) for q in TR_POST_Q] + [(a, q) for a in TR_POST_ADD for q in TR_POST_Q]
+        for pre in pres:
+            for post in posts:
+                logs = []
+                for with_pickle in (False, True):
+                    run = H.Run(uni, cls, cfg)
+                    ok = True
+                    for ev in pre:
+                        if not H.apply_event(run, ev, check=False):
+                            ok = False
+                            break
+                    if not ok:
+                        break
+                    if with_pickle:
+                        try:
+                            run.s = pickle.loads(pickle.dumps(run.s, -1))
+                        except Exception as e:  # noqa: BLE001
+                            part.fail(f"{cls}:pickle-raised:{type(e).__name__}", f"{cls}|" + " ; ".join(H.ev_label(e_) for e_ in pre), str(e)[:160])
+                            ok = False
+                            break
+                    n0 = len(run.log)
+                    for ev in post:
+                        H.apply_event(run, ev, check=False)
+                    logs.append([a for _, a in run.log[n0:]])
+                if len(logs) != 2:
+                    part.count("skipped_prefix_raises")
+                    continue
+                part.count("transitions")
+                part.count("transparency_pairs")
+                if logs[0] != logs[1]:
+                    case = f"{cls}|" + " ; ".join(H.ev_label(e) for e in pre) + " ; [pickle] ; " + " ; ".join(H.ev_label(e) for e in post)
+                    part.fail(f"{cls}:pickle-changes-answers", case, {"without_pickle": str(logs[0])[:200], "with_pickle": str(logs[1])[:200]})
+                else:
+                    part.sample({"transparent": f"{cls}|{[H.ev_label(e) for e in pre]}|pickle|{[H.ev_label(e) for e in post]}", "answers": str(logs[0])[:120]}, limit=1)
+
+    t = threading.Thread(target=body)
+    t.start()
+    t.join()
+    return part.dump()
+
+
 def run(tier: str) -> int:
     rep = Report(
         PID,
@@ -237,7 +292,7 @@ def run(tier: str) -> int:
     mine = [expr_fingerprint(e) for e in pool]
     blob = pickle.dumps(pool, -1)
     for hs in seeds:
-        res = run_child({"exprs": blob, "solvers": None, "uni": "bv3"}, hs)
+        res = run_child({"exprs": blob, "solvers": None, "uni": "bv3", "rebuild_tier": tier}, hs)
         if "error" in res:
             rep.oracle_errors.append(f"child failed (hashseed {hs}): {res['error']}")
             continue
@@ -245,6 +300,11 @@ def run(tier: str) -> int:
             rep.count("transitions")
             if a != b:
                 rep.fail("expr:cross-process-differs", a[0], {"parent": a, "child": b, "hashseed": hs})
+        # the child also built the whole pool natively: each unpickled expression must be that very object
+        for lab, why in res.get("not_identical_to_native", []):
+            rep.fail("expr:unpickled-is-not-the-native-object", lab, {"hashseed": hs, "detail": why})
+        rep.count("transitions", res.get("native_compared", 0))
+        rep.count("unpickled_vs_native_comparisons", res.get("native_compared", 0))
     rep.sample({"expressions": len(pool), "identical_in_process": n_ident, "example": mine[len(mine) // 2]})
     # ---- solvers
     uni = H.universe("bv3")
@@ -262,6 +322,14 @@ def run(tier: str) -> int:
         for i in range(0, len(hs_), 12):
             items.append((cls, cfg, hs_[i : i + 12], seeds))
     for res in pmap(_solver_job, items):
+        rep.merge(res)
+    # ---- pickle transparency (differential; also meaningful for the inexact / approximate classes)
+    pres = [()] + [(a,) for a in TR_PRE] + [(a, b) for a in TR_PRE for b in TR_PRE if a != b]
+    tcls = [("SolverReplacement", {}), ("SolverHybrid", {"exact_false": True, "approx": True}), ("Solver", {}), ("SolverComposite", {})]
+    if tier == "thorough":
+        tcls += [("SolverHybrid", {}), ("SolverCacheless", {}), ("SolverVSA", {"approx": True}), ("SolverReplacementVSA", {"approx": True})]
+    titems = [(cls, cfg, pres[i::8]) for cls, cfg in tcls for i in range(8)]
+    for res in pmap(_transparency_job, titems):
         rep.merge(res)
     rep.counts["states"] = len(pool) + len(hists) * len(classes)
     rep.assumptions = ["SolverReplacement's known C13 defects can make its answers wrong before pickling; histories whose prefix is already wrong are skipped"]
